@@ -472,3 +472,7 @@ class KVDict(object):
 
     def __init__(self, entries=()):
         self.entries = list(entries)
+
+
+class GSet(KVDict):
+    """generic set: KVDict whose values are ignored"""
